@@ -4,6 +4,7 @@ all open bids; cancelling refunds exactly what was escrowed, accepting pays the 
 amount and removes the bid; registrations and purchases leave no residue.
 -/
 import Canine.Proofs.Rns
+import Canine.Generated.KeyFacts
 namespace Canine.Rns
 open Bank
 
@@ -281,5 +282,21 @@ example : EscrowInv exState := by
 
 example : (step exState 5 (.bid "alice" "foo.jkl" "foo.jkl" "300ujkl" (some [("ujkl", 300)]))).isSome = true := by
   decide
+
+/-! ## The store keys as they stand in the source (regenerated fact) -/
+
+/-- A bid is identified by bidder ‖ name, a name by its `name.tld` key: the escrow invariant sums over exactly these records.  Fingerprints of the key constructors of x/rns/types/key*.go as the
+model was written against them; `Generated.keyFns_rns` is recomputed from the source on every
+run (the declarations are listed in Generated/KeyFacts.lean). -/
+def C09_expectedKeys : List (String × String) := [
+  ("x/rns/types/key_bids.go:BidsKey", "8556ba2a0ddcce45"),
+  ("x/rns/types/key_forsale.go:ForsaleKey", "430c9e1c73d46ffe"),
+  ("x/rns/types/key_init.go:InitKey", "8a3409ef2feaf0ec"),
+  ("x/rns/types/key_names.go:NamesKey", "2d192e90e18debfc"),
+  ("x/rns/types/key_names.go:PrimaryNameKey", "39d23d3a6c18050c"),
+  ("x/rns/types/key_whois.go:WhoisKey", "0811970c20d7f2b4"),
+  ("x/rns/types/keys.go:KeyPrefix", "caccc65e7667915d")]
+
+theorem C09_store_keys_as_modelled : Generated.keyFns_rns = C09_expectedKeys := by decide
 
 end Canine.Rns
